@@ -3,15 +3,20 @@
   packs (lean/Golib/Gen/C08.lean, written by xlate/c08 on every run).
 
   * the two registries (`CreateStep`, `CreateService`) and every type's own type code equal the
-    model's tables;
-  * for every type, the skeleton of its `Write` and of its `Read` (ordered calls, declared field
-    types, conversions, constants, control structure) equals the skeleton of the model's layout.
-
-  All by `decide`: an edit of a writer or a reader that changes the wire format (dropped, added or
-  reordered call, other primitive, other width, other presence condition, other constant) changes
-  the regenerated data and the corresponding theorem stops checking.
+    model's tables (`decide`);
+  * **interpreted skeletons**: the regenerated token list of every `Write` is read as a layout by
+    `Step.parseW`, that of every `Read` by `Step.parseR` (interpreters that know nothing of the
+    model); the obligations `iw_T` / `ir_T` say that these are the writer view and the reader view
+    of the model's layout `T` (`decide`).  `gen_roundtrip_T` then follows from the bridge lemmas
+    `wview_write` / `rview_read` and the generic round trip: the reader denoted by the regenerated
+    `Read` skeleton reads back, for all field values in range and any following bytes, exactly
+    what the writer denoted by the regenerated `Write` skeleton writes — and these bytes are the
+    model's.  An edit of a writer or reader that changes the wire format changes the regenerated
+    tokens; either they no longer parse, or they parse to another layout, and `iw_T` / `ir_T` fail.
 -/
-import Golib.Step.Skeleton
+import Golib.Step.Interp
+import Golib.Step.Layouts
+import Golib.Step.ValueInst
 import Golib.Gen.C08
 
 namespace C08Gen
@@ -35,55 +40,121 @@ theorem consts_agree :
     Gen.C08.consts.lookup "STEP_MESSAGE_X" = some 22 := by decide
 
 /-- every registered step type answers the code it is registered under; the two unregistered types
-    do not occur in `CreateStep` (observation of DESIGN §1) -/
+    do not occur in `CreateStep` -/
 theorem registered_codes_consistent :
     (∀ p ∈ Gen.C08.createStep, Gen.C08.typeCodes.lookup p.2 = some p.1) ∧
     Gen.C08.createStep.all (fun p => p.2 != "MessageStepX" && p.2 != "SqlStep_3") = true := by decide
 
-/-! ### writers -/
+/-! ### interpreted skeletons -/
 
-theorem w_MethodStepX : Gen.C08.wskel_MethodStepX = methodStepX.wskel := by decide
-theorem w_SqlStepX : Gen.C08.wskel_SqlStepX = sqlStepX.wskel := by decide
-theorem w_ResultSetStep : Gen.C08.wskel_ResultSetStep = resultSetStep.wskel := by decide
-theorem w_SocketStep : Gen.C08.wskel_SocketStep = socketStep.wskel := by decide
-theorem w_HttpcStepX : Gen.C08.wskel_HttpcStepX = httpcStepX.wskel := by decide
-theorem w_ActiveStackStep : Gen.C08.wskel_ActiveStackStep = activeStackStep.wskel := by decide
-theorem w_MessageStep : Gen.C08.wskel_MessageStep = messageStep.wskel := by decide
-theorem w_SecureMsgStep : Gen.C08.wskel_SecureMsgStep = secureMsgStep.wskel := by decide
-theorem w_DBCStep : Gen.C08.wskel_DBCStep = dbcStep.wskel := by decide
-theorem w_MessageStepX : Gen.C08.wskel_MessageStepX = messageStepX.wskel := by decide
-theorem w_SqlStep_3 : Gen.C08.wskel_SqlStep_3 = sqlStep3.wskel := by decide
-theorem w_WasService : Gen.C08.wskel_WasService = wasService.wskel := by decide
-theorem w_AppService : Gen.C08.wskel_AppService = appService.wskel := by decide
-theorem w_WasService2 : Gen.C08.wskel_WasService2 = wasService.wskel := by decide
-theorem w_TxRecord : Gen.C08.wskel_TxRecord = txRecord.wskel := by decide
-theorem w_ProfilePack : Gen.C08.wskel_ProfilePack = profilePackW := by decide
-theorem w_ProfileStepSplitPack :
-    Gen.C08.wskel_ProfileStepSplitPack = "call AbstractPack.Write" :: profileStepSplitPackBody.wskel := by decide
-theorem w_ErrorSnapPack1 :
-    Gen.C08.wskel_ErrorSnapPack1 = "call AbstractPack.Write" :: errorSnapPack1Body.wskel := by decide
+/-- what an interpreted pair of skeletons gives -/
+abbrev Denotes (tw tr : List Tok) (T : L) : Prop :=
+  ∃ lw lr, parseW tw = some lw ∧ parseR tr = some lr ∧
+    ∀ (x : Rec) (r : Bytes), T.WF valueRT x [] →
+      (lw.write x = T.write x) ∧ lr.read [] (lw.write x ++ r) = some (T.expect x [], r)
 
-/-! ### readers -/
+theorem iw_MethodStepX : parseW Gen.C08.wtok_MethodStepX = some methodStepX.wview := by decide
+theorem ir_MethodStepX : parseR Gen.C08.rtok_MethodStepX = some methodStepX.rview := by decide
+theorem gen_roundtrip_MethodStepX : Denotes Gen.C08.wtok_MethodStepX Gen.C08.rtok_MethodStepX methodStepX :=
+  interp_roundtrip valueRT _ _ methodStepX (by decide) iw_MethodStepX ir_MethodStepX
 
-theorem r_MethodStepX : Gen.C08.rskel_MethodStepX = methodStepX.rskel := by decide
-theorem r_SqlStepX : Gen.C08.rskel_SqlStepX = sqlStepX.rskel := by decide
-theorem r_ResultSetStep : Gen.C08.rskel_ResultSetStep = resultSetStep.rskel := by decide
-theorem r_SocketStep : Gen.C08.rskel_SocketStep = socketStep.rskel := by decide
-theorem r_HttpcStepX : Gen.C08.rskel_HttpcStepX = httpcStepX.rskel := by decide
-theorem r_ActiveStackStep : Gen.C08.rskel_ActiveStackStep = activeStackStep.rskel := by decide
-theorem r_MessageStep : Gen.C08.rskel_MessageStep = messageStep.rskel := by decide
-theorem r_SecureMsgStep : Gen.C08.rskel_SecureMsgStep = secureMsgStep.rskel := by decide
-theorem r_DBCStep : Gen.C08.rskel_DBCStep = dbcStep.rskel := by decide
-theorem r_MessageStepX : Gen.C08.rskel_MessageStepX = messageStepXR := by decide
-theorem r_SqlStep_3 : Gen.C08.rskel_SqlStep_3 = sqlStep3.rskel := by decide
-theorem r_WasService : Gen.C08.rskel_WasService = wasService.rskel := by decide
-theorem r_AppService : Gen.C08.rskel_AppService = appService.rskel := by decide
-theorem r_WasService2 : Gen.C08.rskel_WasService2 = wasService.rskel := by decide
-theorem r_TxRecord : Gen.C08.rskel_TxRecord = txRecordR := by decide
-theorem r_ProfilePack : Gen.C08.rskel_ProfilePack = profilePackR := by decide
-theorem r_ProfileStepSplitPack :
-    Gen.C08.rskel_ProfileStepSplitPack = "call AbstractPack.Read" :: profileStepSplitPackBody.rskel := by decide
-theorem r_ErrorSnapPack1 :
-    Gen.C08.rskel_ErrorSnapPack1 = "call AbstractPack.Read" :: errorSnapPack1Body.rskel := by decide
+theorem iw_SqlStepX : parseW Gen.C08.wtok_SqlStepX = some sqlStepX.wview := by decide
+theorem ir_SqlStepX : parseR Gen.C08.rtok_SqlStepX = some sqlStepX.rview := by decide
+theorem gen_roundtrip_SqlStepX : Denotes Gen.C08.wtok_SqlStepX Gen.C08.rtok_SqlStepX sqlStepX :=
+  interp_roundtrip valueRT _ _ sqlStepX (by decide) iw_SqlStepX ir_SqlStepX
+
+theorem iw_ResultSetStep : parseW Gen.C08.wtok_ResultSetStep = some resultSetStep.wview := by decide
+theorem ir_ResultSetStep : parseR Gen.C08.rtok_ResultSetStep = some resultSetStep.rview := by decide
+theorem gen_roundtrip_ResultSetStep : Denotes Gen.C08.wtok_ResultSetStep Gen.C08.rtok_ResultSetStep resultSetStep :=
+  interp_roundtrip valueRT _ _ resultSetStep (by decide) iw_ResultSetStep ir_ResultSetStep
+
+theorem iw_SocketStep : parseW Gen.C08.wtok_SocketStep = some socketStep.wview := by decide
+theorem ir_SocketStep : parseR Gen.C08.rtok_SocketStep = some socketStep.rview := by decide
+theorem gen_roundtrip_SocketStep : Denotes Gen.C08.wtok_SocketStep Gen.C08.rtok_SocketStep socketStep :=
+  interp_roundtrip valueRT _ _ socketStep (by decide) iw_SocketStep ir_SocketStep
+
+theorem iw_HttpcStepX : parseW Gen.C08.wtok_HttpcStepX = some httpcStepX.wview := by decide
+theorem ir_HttpcStepX : parseR Gen.C08.rtok_HttpcStepX = some httpcStepX.rview := by decide
+theorem gen_roundtrip_HttpcStepX : Denotes Gen.C08.wtok_HttpcStepX Gen.C08.rtok_HttpcStepX httpcStepX :=
+  interp_roundtrip valueRT _ _ httpcStepX (by decide) iw_HttpcStepX ir_HttpcStepX
+
+theorem iw_ActiveStackStep : parseW Gen.C08.wtok_ActiveStackStep = some activeStackStep.wview := by decide
+theorem ir_ActiveStackStep : parseR Gen.C08.rtok_ActiveStackStep = some activeStackStep.rview := by decide
+theorem gen_roundtrip_ActiveStackStep : Denotes Gen.C08.wtok_ActiveStackStep Gen.C08.rtok_ActiveStackStep activeStackStep :=
+  interp_roundtrip valueRT _ _ activeStackStep (by decide) iw_ActiveStackStep ir_ActiveStackStep
+
+theorem iw_MessageStep : parseW Gen.C08.wtok_MessageStep = some messageStep.wview := by decide
+theorem ir_MessageStep : parseR Gen.C08.rtok_MessageStep = some messageStep.rview := by decide
+theorem gen_roundtrip_MessageStep : Denotes Gen.C08.wtok_MessageStep Gen.C08.rtok_MessageStep messageStep :=
+  interp_roundtrip valueRT _ _ messageStep (by decide) iw_MessageStep ir_MessageStep
+
+theorem iw_SecureMsgStep : parseW Gen.C08.wtok_SecureMsgStep = some secureMsgStep.wview := by decide
+theorem ir_SecureMsgStep : parseR Gen.C08.rtok_SecureMsgStep = some secureMsgStep.rview := by decide
+theorem gen_roundtrip_SecureMsgStep : Denotes Gen.C08.wtok_SecureMsgStep Gen.C08.rtok_SecureMsgStep secureMsgStep :=
+  interp_roundtrip valueRT _ _ secureMsgStep (by decide) iw_SecureMsgStep ir_SecureMsgStep
+
+theorem iw_DBCStep : parseW Gen.C08.wtok_DBCStep = some dbcStep.wview := by decide
+theorem ir_DBCStep : parseR Gen.C08.rtok_DBCStep = some dbcStep.rview := by decide
+theorem gen_roundtrip_DBCStep : Denotes Gen.C08.wtok_DBCStep Gen.C08.rtok_DBCStep dbcStep :=
+  interp_roundtrip valueRT _ _ dbcStep (by decide) iw_DBCStep ir_DBCStep
+
+theorem iw_MessageStepX : parseW Gen.C08.wtok_MessageStepX = some messageStepX.wview := by decide
+theorem ir_MessageStepX : parseR Gen.C08.rtok_MessageStepX = some messageStepX.rview := by decide
+theorem gen_roundtrip_MessageStepX : Denotes Gen.C08.wtok_MessageStepX Gen.C08.rtok_MessageStepX messageStepX :=
+  interp_roundtrip valueRT _ _ messageStepX (by decide) iw_MessageStepX ir_MessageStepX
+
+theorem iw_SqlStep_3 : parseW Gen.C08.wtok_SqlStep_3 = some sqlStep3.wview := by decide
+theorem ir_SqlStep_3 : parseR Gen.C08.rtok_SqlStep_3 = some sqlStep3.rview := by decide
+theorem gen_roundtrip_SqlStep_3 : Denotes Gen.C08.wtok_SqlStep_3 Gen.C08.rtok_SqlStep_3 sqlStep3 :=
+  interp_roundtrip valueRT _ _ sqlStep3 (by decide) iw_SqlStep_3 ir_SqlStep_3
+
+theorem iw_WasService : parseW Gen.C08.wtok_WasService = some wasService.wview := by decide
+theorem ir_WasService : parseR Gen.C08.rtok_WasService = some wasService.rview := by decide
+theorem gen_roundtrip_WasService : Denotes Gen.C08.wtok_WasService Gen.C08.rtok_WasService wasService :=
+  interp_roundtrip valueRT _ _ wasService (by decide) iw_WasService ir_WasService
+
+theorem iw_AppService : parseW Gen.C08.wtok_AppService = some appService.wview := by decide
+theorem ir_AppService : parseR Gen.C08.rtok_AppService = some appService.rview := by decide
+theorem gen_roundtrip_AppService : Denotes Gen.C08.wtok_AppService Gen.C08.rtok_AppService appService :=
+  interp_roundtrip valueRT _ _ appService (by decide) iw_AppService ir_AppService
+
+theorem iw_WasService2 : parseW Gen.C08.wtok_WasService2 = some wasService.wview := by decide
+theorem ir_WasService2 : parseR Gen.C08.rtok_WasService2 = some wasService.rview := by decide
+theorem gen_roundtrip_WasService2 : Denotes Gen.C08.wtok_WasService2 Gen.C08.rtok_WasService2 wasService :=
+  interp_roundtrip valueRT _ _ wasService (by decide) iw_WasService2 ir_WasService2
+
+theorem iw_TxRecord : parseW Gen.C08.wtok_TxRecord = some txRecord.wview := by decide
+theorem ir_TxRecord : parseR Gen.C08.rtok_TxRecord = some txRecord.rview := by decide
+theorem gen_roundtrip_TxRecord : Denotes Gen.C08.wtok_TxRecord Gen.C08.rtok_TxRecord txRecord :=
+  interp_roundtrip valueRT _ _ txRecord (by decide) iw_TxRecord ir_TxRecord
+
+/-! the packs: the first token is the call of the header writer / reader (C03's subject), the rest is the body -/
+
+theorem iw_ProfilePack : Gen.C08.wtok_ProfilePack.head? = some (.call "AbstractPack.Write") ∧
+    parseW (Gen.C08.wtok_ProfilePack.drop 1) = some profilePackBody.wview := by decide
+theorem ir_ProfilePack : Gen.C08.rtok_ProfilePack.head? = some (.call "AbstractPack.Read") ∧
+    parseR (Gen.C08.rtok_ProfilePack.drop 1) = some profilePackBody.rview := by decide
+theorem gen_roundtrip_ProfilePack : Denotes (Gen.C08.wtok_ProfilePack.drop 1) (Gen.C08.rtok_ProfilePack.drop 1) profilePackBody :=
+  interp_roundtrip valueRT _ _ profilePackBody (by decide) iw_ProfilePack.2 ir_ProfilePack.2
+
+theorem iw_ProfileStepSplitPack : Gen.C08.wtok_ProfileStepSplitPack.head? = some (.call "AbstractPack.Write") ∧
+    parseW (Gen.C08.wtok_ProfileStepSplitPack.drop 1) = some profileStepSplitPackBody.wview := by decide
+theorem ir_ProfileStepSplitPack : Gen.C08.rtok_ProfileStepSplitPack.head? = some (.call "AbstractPack.Read") ∧
+    parseR (Gen.C08.rtok_ProfileStepSplitPack.drop 1) = some profileStepSplitPackBody.rview := by decide
+theorem gen_roundtrip_ProfileStepSplitPack : Denotes (Gen.C08.wtok_ProfileStepSplitPack.drop 1) (Gen.C08.rtok_ProfileStepSplitPack.drop 1) profileStepSplitPackBody :=
+  interp_roundtrip valueRT _ _ profileStepSplitPackBody (by decide) iw_ProfileStepSplitPack.2 ir_ProfileStepSplitPack.2
+
+theorem iw_ErrorSnapPack1 : Gen.C08.wtok_ErrorSnapPack1.head? = some (.call "AbstractPack.Write") ∧
+    parseW (Gen.C08.wtok_ErrorSnapPack1.drop 1) = some errorSnapPack1Body.wview := by decide
+theorem ir_ErrorSnapPack1 : Gen.C08.rtok_ErrorSnapPack1.head? = some (.call "AbstractPack.Read") ∧
+    parseR (Gen.C08.rtok_ErrorSnapPack1.drop 1) = some errorSnapPack1Body.rview := by decide
+theorem gen_roundtrip_ErrorSnapPack1 : Denotes (Gen.C08.wtok_ErrorSnapPack1.drop 1) (Gen.C08.rtok_ErrorSnapPack1.drop 1) errorSnapPack1Body :=
+  interp_roundtrip valueRT _ _ errorSnapPack1Body (by decide) iw_ErrorSnapPack1.2 ir_ErrorSnapPack1.2
+
+/-- non-vacuity: the interpreters do not accept everything — a writer skeleton with a call they do not
+    know, or one that stops inside a section, denotes nothing -/
+example : parseW [.w "WriteFloat" "X" "float32"] = none := by decide
+example : parseW [.ifnz "Mtid", .wl "WriteByte" 1] = none := by decide
+example : parseR [.r "ReadDecimal" "X" "int64" "int32"] = none := by decide   -- a narrowing read of an int64 field
 
 end C08Gen
